@@ -175,16 +175,44 @@ def history_tier(ck, violation, label, crys, chem, sl, jn, cut, ops, max_states,
     info0 = {"crystal": repr(crys), "label": label, "chem": chem, "cutoff": cut, "tier": "history"}
     fresh = {}
 
-    def fresh_for(N):
-        if N not in fresh:
-            Sf = crystalStars.StarSet(jn, crys, chem, N, originstates=True)
-            fresh[N] = (Sf, crystalStars.VectorStarSet(Sf) if Sf.Nstates <= max_states else None)
-        return fresh[N]
+    def fresh_for(N, o=True):
+        if (N, o) not in fresh:
+            Sf = crystalStars.StarSet(jn, crys, chem, N, originstates=o)
+            fresh[(N, o)] = (Sf, crystalStars.VectorStarSet(Sf) if Sf.Nstates <= max_states else None)
+        return fresh[(N, o)]
 
-    def judge(Vr, Sr, N, info, what):
-        Sf, Vf = fresh_for(N)
+    def queries(S_, V_):
+        """everything a calculator asks of a vector-star object: expansions for the object's own omega1/omega2 networks"""
+        out = {}
+        gf, gfs = V_.GFexpansion()
+        out["GFexpansion"] = gf; out["GFstates"] = np.array([sc.ps_of(x)[:2] + sc.ps_of(x)[2] for x in gfs.states])
+        for nm, fn, om2 in (("om1", S_.jumpnetwork_omega1, False), ("om2", S_.jumpnetwork_omega2, True)):
+            r = fn()
+            if not r: continue
+            jn_, jt_, sp_ = r
+            for k, a in enumerate(V_.rateexpansions(jn_, jt_, omega2=om2)): out["%s-rate%d" % (nm, k)] = a
+            for k, a in enumerate(V_.biasexpansions(jn_, jt_, omega2=om2)): out["%s-bias%d" % (nm, k)] = a
+        for et in ("solute", "vacancy"):
+            osi, fd, osvb = V_.originstateVectorBasisfolddown(et)
+            out["folddown-%s-idx" % et] = np.array(osi); out["folddown-%s" % et] = fd; out["OS_VB-%s" % et] = osvb
+        return out
+
+    def judge(Vr, Sr, N, info, what, o=True):
+        Sf, Vf = fresh_for(N, o)
         if Vf is None: return
         cmpres = same_vset(Vr, Sr, Vf, Sf)
+        if cmpres == [] and Vr.Nvstars > 0 and Sr.Nstates <= ck.n(80, 150):
+            # the regenerated pair must answer every query like a fresh pair (nothing memoised from the earlier range/flag)
+            try:
+                qr, qf = queries(Sr, Vr), queries(Sf, Vf)
+                for k in qf:
+                    a, b = np.asarray(qr.get(k)), np.asarray(qf[k])
+                    if a.shape != b.shape or (a.size and np.abs(a.astype(float) - b.astype(float)).max() > 1e-12):
+                        violation("history-query", "%s: %s of the regenerated objects differs from fresh objects (shapes %s / %s)"
+                                  % (what, k, a.shape, b.shape), info); break
+                stats["query-comparisons"] += 1
+            except Exception as e:
+                violation("history-exception", "%s: query raised %s: %s" % (what, type(e).__name__, e), info)
         if cmpres is None: stats["order-differs"] += 1
         for key, msg in (cmpres or []):
             violation("history-" + key, "%s: %s" % (what, msg), info)
@@ -206,18 +234,22 @@ def history_tier(ck, violation, label, crys, chem, sl, jn, cut, ops, max_states,
     # (a) same StarSet and VectorStarSet objects, ranges growing and shrinking
     seqs = [[1, 2, 1], [2, 3, 2, 1, 3]] if fresh_for(3)[1] is not None else [[1, 2, 1, 2]]
     seqs.append([rng.choice([1, 2, 3] if fresh_for(3)[1] is not None else [1, 2]) for _ in range(4)])
+    seqs = [[(N, True) for N in q] for q in seqs]
+    # the origin-state flag switched at unchanged and at changed range (origin states carry vector stars on polar sites)
+    seqs += [[(2, False), (2, True), (1, False), (1, True)], [(1, True), (2, False), (2, True)]]
     for seq in seqs:
         info = dict(info0, route="StarSet.generate + VectorStarSet.generate", history=seq)
         try:
-            S = crystalStars.StarSet(jn, crys, chem, seq[0], originstates=True)
+            S = crystalStars.StarSet(jn, crys, chem, seq[0][0], originstates=seq[0][1])
             V = crystalStars.VectorStarSet(S)
-            for k, N in enumerate(seq[1:], 1):
-                S.generate(N, originstates=True)
+            if S.Nstates <= ck.n(80, 150) and V.Nvstars > 0: queries(S, V)            # first round of queries (may be memoised by the objects)
+            for k, (N, o) in enumerate(seq[1:], 1):
+                S.generate(N, originstates=o)
                 V.generate(S)
-                judge(V, S, N, dict(info, step=k, N=N), "vset.generate after S.generate(%d)" % N)
+                judge(V, S, N, dict(info, step=k, N=N, originstates=o), "vset.generate after S.generate(%d, originstates=%s)" % (N, o), o)
         except Exception as e:
             violation("history-exception", "regeneration raised %s: %s" % (type(e).__name__, e), info)
-        ck.case(key=(label, repr(crys), round(cut, 5), "hist", tuple(seq)), nontrivial=len(set(seq)) > 1,
+        ck.case(key=(label, repr(crys), round(cut, 5), "hist", str(seq)), nontrivial=len(set(seq)) > 1,
                 kind="history:%dD-starset" % crys.dim,
                 sample={"tier": "history", "crystal": label, "history": seq} if stats["regenerations"] < 8 else None)
     # (b) the calculator: VacancyMediated(..., 1) then generate(2) then generate(1)  (kinetic range = Nthermo + 1)
@@ -267,7 +299,7 @@ def run(ck):
     skipped = {"nonpercolating": 0, "construct-failed": 0, "geometry": 0, "too-large": 0}
     maxerr = {}
     nhist = 0
-    hstats = {"regenerations": 0, "order-differs": 0, "vacancymediated-too-large": 0}
+    hstats = {"regenerations": 0, "order-differs": 0, "vacancymediated-too-large": 0, "query-comparisons": 0}
 
     def violation(key, msg, info, detail=None):
         d = dict(info); d.update(detail or {})
@@ -309,7 +341,7 @@ def run(ck):
         G = list(crys.G)
         u = crys.basis[chem]
         info0 = {"crystal": repr(crys), "label": label, "chem": chem, "cutoff": cut}
-        if nhist < ck.n(8, 40):
+        if nhist < ck.n(6, 24):
             nhist += 1
             history_tier(ck, violation, label, crys, chem, sl, jn, cut, ops, max_states, ck.n(160, 330), hstats)
         # lattice-form jump networks (crys.jumpnetwork2lattice) as well, where the two forms can differ at all:
